@@ -226,7 +226,7 @@ func (t *stdioClientTransport) sendRequest(ctx context.Context, req *JSONRPCRequ
 		t.pendingMutex.Lock()
 		delete(t.pendingRequests, reqID)
 		t.pendingMutex.Unlock()
-		close(respChan)
+		// respChan is not closed here: the read loop may be about to hand a late answer to it.
 	}()
 
 	// Send request.
@@ -240,7 +240,10 @@ func (t *stdioClientTransport) sendRequest(ctx context.Context, req *JSONRPCRequ
 
 	// Wait for response or timeout.
 	select {
-	case resp := <-respChan:
+	case resp, ok := <-respChan:
+		if !ok {
+			return nil, fmt.Errorf("transport closed")
+		}
 		return resp, nil
 	case <-ctx.Done():
 		return nil, ctx.Err()
@@ -381,9 +384,11 @@ func (t *stdioClientTransport) handleResponse(rawMessage json.RawMessage) {
 		return
 	}
 
+	// The lock is held until the answer has been handed over (the send never blocks):
+	// close() closes the channels of pending requests under the write lock.
 	t.pendingMutex.RLock()
+	defer t.pendingMutex.RUnlock()
 	respChan, exists := t.pendingRequests[reqID]
-	t.pendingMutex.RUnlock()
 
 	if !exists {
 		t.logger.Warnf("No pending request for ID: %d", reqID)
@@ -440,9 +445,11 @@ func (t *stdioClientTransport) handleErrorResponse(rawMessage json.RawMessage) {
 		return
 	}
 
+	// The lock is held until the answer has been handed over (the send never blocks):
+	// close() closes the channels of pending requests under the write lock.
 	t.pendingMutex.RLock()
+	defer t.pendingMutex.RUnlock()
 	respChan, exists := t.pendingRequests[reqID]
-	t.pendingMutex.RUnlock()
 
 	if !exists {
 		t.logger.Warnf("No pending request for error ID: %d", reqID)
